@@ -218,7 +218,11 @@ func buildC03(cfg *mon.Config) []*mon.Sub {
 				default:
 					name := mon.Pick(r, c08Names)
 					t = &model.Node{Op: "call", Lit: name}
-					for k := r.Intn(5); k > 0; k-- {
+					nargs := r.Intn(5)
+					if r.Chance(1, 3) {
+						nargs = r.Intn(41) // long argument lists
+					}
+					for k := nargs; k > 0; k-- {
 						t.Kids = append(t.Kids, g.shape(r.Intn(2)))
 					}
 				}
